@@ -457,6 +457,13 @@ def main(argv=None):
   sys.stdout.flush()
 
   harness_errors = []
+  if not os.environ.get("VERIF_KEEP_REPLAYS"):
+    import glob
+    for old in glob.glob(os.path.join(core.VERIF_ROOT, "replays", "%s-*.json" % pid)):
+      try:
+        os.remove(old)
+      except OSError:
+        pass
   agg, viols, sig_counts, st = run_seed_range(name, mod, seed, total, workers, hard, tier.get("wall_budget"))
   harness_errors.extend(st["errors"])
   t_explore = time.monotonic() - t0
